@@ -600,6 +600,19 @@ def random_scenarios(ctx, kinds, cache=False):
     return scs
 
 
+def pair_scenarios(ctx, kinds, cache=False):
+    """Every ordered pair of writer calls on one key (small scope, systematic); quick tier: a seeded sample."""
+    strat = {"kind": "dfs", "bound": 2, "max": 400 if not ctx.thorough else 6000, "rotate": True, "reduce": True}
+    scs = []
+    for (kind, kt, vt) in kinds:
+        scs += (scen.pair_cache_scenarios if cache else scen.pair_map_scenarios)(kind, kt, vt, strat)
+    if not ctx.thorough:
+        rng = random.Random(lib.seed() * 97 + 5)
+        rng.shuffle(scs)
+        scs = scs[:48]
+    return scs
+
+
 def map_scenarios(ctx, kinds, pick=None):
     scs = []
     for (kind, kt, vt) in kinds:
@@ -613,12 +626,14 @@ def map_scenarios(ctx, kinds, pick=None):
 def check_c03(ctx):
     run_conc(ctx, map_scenarios(ctx, [("Map", "", "")]), "Trace_MapLin", "C03", "Map families")
     run_conc(ctx, random_scenarios(ctx, [("Map", "", "")]), "Trace_MapLin", "C03", "Map random programs")
+    run_conc(ctx, pair_scenarios(ctx, [("Map", "", "")]), "Trace_MapLin", "C03", "Map call pairs")
 
 
 def check_c04(ctx):
     kinds = [("MapOf", "string", "any"), ("MapOf", "int", "int"), ("MapOf", "struct", "string")]
     run_conc(ctx, map_scenarios(ctx, kinds), "Trace_MapLin", "C04", "MapOf families")
     run_conc(ctx, random_scenarios(ctx, kinds[:2]), "Trace_MapLin", "C04", "MapOf random programs")
+    run_conc(ctx, pair_scenarios(ctx, kinds[:2]), "Trace_MapLin", "C04", "MapOf call pairs")
 
 
 CHECKS["C03"] = check_c03
@@ -639,6 +654,7 @@ def check_c02(ctx):
     kinds = [("Cache", "", ""), ("CacheOf", "string", "any")] + ([("CacheOf", "int", "int")] if ctx.thorough else [])
     run_conc(ctx, cache_scenarios(ctx, kinds), "Trace_CacheLin", "C02", "cache families")
     run_conc(ctx, random_scenarios(ctx, kinds[:2], cache=True), "Trace_CacheLin", "C02", "cache random programs")
+    run_conc(ctx, pair_scenarios(ctx, kinds[:2], cache=True), "Trace_CacheLin", "C02", "cache call pairs")
 
 
 CHECKS["C02"] = check_c02
